@@ -449,6 +449,11 @@ def c06 (ms : M) (e : Event) : List String :=
         (if kinds == ["3"] && rejTag "49" then [] else ["C06.reaction_wrong{defect=field49}"])
       else if v.beginOK && v.sndOK && (fget m.f 56).isNone then
         (if kinds == ["3"] && rejTag "56" then [] else ["C06.reaction_wrong{defect=field56}"])
+      -- present but EMPTY: a plain Reject naming the field (reason 4), not the wrong-CompID treatment
+      else if v.beginOK && v.tgtOK && fget m.f 49 == some "" && (m.f.filter (fun p => p.2.isEmpty)).length == 1 then
+        (if kinds == ["3"] && rejTag "49" && rejReason "4" then [] else ["C06.reaction_wrong{defect=field49-empty}"])
+      else if v.beginOK && v.sndOK && fget m.f 56 == some "" && (m.f.filter (fun p => p.2.isEmpty)).length == 1 then
+        (if kinds == ["3"] && rejTag "56" && rejReason "4" then [] else ["C06.reaction_wrong{defect=field56-empty}"])
       else if v.beginOK && v.sndOK && v.tgtOK && !cfg.skipLatency && !v.timeValid && fget m.f 52 != some "" then
         (if kinds == ["3"] && rejTag "52" then [] else ["C06.reaction_wrong{defect=field52}"])
       else if v.beginOK && v.sndOK && v.tgtOK && (cfg.skipLatency || v.timeOK) && v.seq.isNone && fget m.f 34 != some "" then
@@ -683,6 +688,10 @@ def c20 (ms : M) (e : Event) (hbAfter : Int) : List String :=
       (if e.items.contains .onLogout && e.after.st == "Latent" then [] else ["C20.dead_peer_not_disconnected"])
       ++ (if count "1" == 0 then [] else ["C20.second_test_request"])
     else []
+  | .garbage =>
+    -- a framed message that does not parse is still something RECEIVED: the silence measured by the peer timer starts over
+    if stConnected prev.st && e.after.status == "ok" && stConnected e.after.st then
+      (if armed (1200 * ms.hb) then [] else ["C20.peer_timer_not_rearmed_on_receive{unparsable}"]) else []
   | op =>
     match inboundOf ms op with
     | none => []
